@@ -616,6 +616,7 @@ class ClusterNetSim(NetSim):
         self.fac: dict[int, dict] = {}
         self.vam_tx: list[dict] = []
         self.loc_errors: list[dict] = []
+        self.reports: list[dict] = []
 
     def extra_patches(self, p: Patches) -> None:
         p.set(vc_mod, "random", EdgeRandom(self.cfg.get("prng_seed", 0)))
@@ -683,9 +684,12 @@ class ClusterNetSim(NetSim):
         if self.cfg.get("app_calls_update", True):
             fac["watch"].call("update", tpv["lat"], tpv["lon"], tpv.get("speed", 0.0), tpv.get("track", 0.0))
         st_before = fac["watch"].prev.state
+        rep = {"t": k.now_us, "st": station.idx, "state": st_before, "raised": False}
+        self.reports.append(rep)
         try:
             fac["tx"].location_service_callback(tpv)
         except Exception as e:
+            rep["raised"] = True
             self.loc_errors.append({"t": k.now_us, "st": station.idx, "exc": e, "state": st_before,
                                     "opc": _quiet(fac["mgr"].get_cluster_operation_container),
                                     "info": _quiet(fac["mgr"].get_cluster_information_container)})
